@@ -335,7 +335,9 @@ def _bit_reads(ctx, R):
     calls.sort(key=lambda x: x["sp"][0])
     seq = [(x["name"], ix.canon(x["args"][0]) if x["args"] else "") for x in calls]
     want_seq = [("refill", ""), ("peek_bits_triple", S), ("consume", S), ("get_bits", "$0"), ("get_bits", "$1"), ("get_bits", "$2")]
-    ctx.check(seq == want_seq, R, "get_bits_triple::order", b["file"],
+    fast = [x_ for x_ in seq if x_[0] != "get_bits"]
+    slow = [x_ for x_ in seq if x_[0] == "get_bits"]
+    ctx.check(fast == want_seq[:3] and slow == want_seq[3:], R, "get_bits_triple::order", b["file"],
               "refill, peek, consume(sum) on the fast path; the three single reads in parameter order on the slow path", observed=seq, expected=want_seq)
     b, ix, t = table("get_bits")
     calls = [x for x in hq.find(b["body"], lambda x: x.get("k") == "MethodCall" and x["name"] in ("refill", "peek_bits", "consume"))]
